@@ -149,8 +149,9 @@ inductive MStep where
   /-- a call executed by the running EVM (the contract's own call, or a precompile using `contract.NewERC20Call`),
   followed by a native payment of `pay` coins out of the module's escrow (0 for the contract's own calls) -/
   | evm (p : TProg) (pay : Nat)
-  /-- a keeper-level call made from inside a precompile, followed by the native payment -/
-  | nested (p : TProg) (pay : Nat)
+  /-- a keeper-level call made from inside a precompile, with the native payment out of the escrow (`pay`, conversions to
+  coins) or into it (`gain`, a refund converted back to ERC-20) -/
+  | nested (p : TProg) (pay gain : Nat)
 
 /-- state of a running transaction: the StateDB and the coins escrowed by the erc20 module (native state: lives in the
 same branched store the nested calls write to, so it is always coherent) -/
@@ -165,9 +166,9 @@ def runTx : List MStep → TxSt → Option TxSt
     match runOuter p s.o with
     | (true, o1) => if s.esc < pay then none else runTx rest ⟨o1, s.esc - pay⟩
     | (false, _) => none
-  | .nested p pay :: rest, s =>
+  | .nested p pay gain :: rest, s =>
     match nestedCall p s.o.store with
-    | (true, st) => if s.esc < pay then none else runTx rest ⟨{ s.o with store := st }, s.esc - pay⟩
+    | (true, st) => if s.esc < pay then none else runTx rest ⟨{ s.o with store := st }, s.esc - pay + gain⟩
     | (false, _) => none
 
 /-- the store and the escrow after the transaction (unchanged if it reverted) -/
@@ -179,9 +180,13 @@ def txResult (steps : List MStep) (st : Store) (esc : Nat) : Bool × Store × Na
 /-- the same programs run one after the other on a single coherent store -/
 def runSeq : List MStep → Store × Nat → Option (Store × Nat)
   | [], s => some s
-  | .evm p pay :: rest, (st, esc) | .nested p pay :: rest, (st, esc) =>
+  | .evm p pay :: rest, (st, esc) =>
     match runPlain p st with
     | (true, st1) => if esc < pay then none else runSeq rest (st1, esc - pay)
+    | (false, _) => none
+  | .nested p pay gain :: rest, (st, esc) =>
+    match runPlain p st with
+    | (true, st1) => if esc < pay then none else runSeq rest (st1, esc - pay + gain)
     | (false, _) => none
 
 /-- the slots a program reads or writes when run on `st` -/
@@ -201,10 +206,10 @@ def CoherentTx : List MStep → TxSt → Prop
     match runOuter p s.o with
     | (true, o1) => s.esc < pay ∨ CoherentTx rest ⟨o1, s.esc - pay⟩
     | (false, _) => True
-  | .nested p pay :: rest, s =>
+  | .nested p pay gain :: rest, s =>
     (∀ k ∈ touchedOf p s.o.store, s.o.cached k = false) ∧
     match nestedCall p s.o.store with
-    | (true, st) => s.esc < pay ∨ CoherentTx rest ⟨{ s.o with store := st }, s.esc - pay⟩
+    | (true, st) => s.esc < pay ∨ CoherentTx rest ⟨{ s.o with store := st }, s.esc - pay + gain⟩
     | (false, _) => True
 
 /-- executable form of `CoherentTx` -/
@@ -214,10 +219,10 @@ def coherentTxB : List MStep → TxSt → Bool
     match runOuter p s.o with
     | (true, o1) => decide (s.esc < pay) || coherentTxB rest ⟨o1, s.esc - pay⟩
     | (false, _) => true
-  | .nested p pay :: rest, s =>
+  | .nested p pay gain :: rest, s =>
     (touchedOf p s.o.store).all (fun k => !s.o.cached k) &&
     match nestedCall p s.o.store with
-    | (true, st) => decide (s.esc < pay) || coherentTxB rest ⟨{ s.o with store := st }, s.esc - pay⟩
+    | (true, st) => decide (s.esc < pay) || coherentTxB rest ⟨{ s.o with store := st }, s.esc - pay + gain⟩
     | (false, _) => true
 
 /-- result of the sequential reference semantics in the shape of `txResult` -/
@@ -228,7 +233,7 @@ def seqResult (steps : List MStep) (st : Store) (esc : Nat) : Bool × Store × N
 
 def MStep.prog : MStep → TProg
   | .evm p _ => p
-  | .nested p _ => p
+  | .nested p _ _ => p
 
 /-- Σ balances over a list of holders -/
 def sumBal (hs : List Nat) (st : Store) : Nat := (hs.map (fun a => st (.bal a))).sum
@@ -240,7 +245,9 @@ accounts: 0 = the calling contract ("mixer"), 1 = a second holder ("sink"), 2 = 
 `t<n>` mixer calls `token.transfer(sink, n)`; `rm` / `rs` mixer reads `balanceOf(mixer / sink)`; `a<n>` mixer calls
 `token.approve(precompile, n)`; `b<n>` mixer calls the precompile `bridgeCall` with `n` of the token (keeper-level
 `ConvertERC20` of the mixer's tokens, then `n` coins are paid out of the module's escrow); `x<n>` mixer calls the precompile `crossChain` with `n` (through the running EVM:
-`transferFrom(mixer → module)` by the precompile, then `burn(module)` for a module-owned token). -/
+`transferFrom(mixer → module)` by the precompile, then `burn(module)` for a module-owned token); `c<n>` mixer calls the
+precompile `cancelSendToExternal` on a pending transfer of `n`: the refund is converted back to ERC-20 by the keeper-level
+`ConvertCoin` (nested `mint` to the mixer, `n` coins enter the escrow). -/
 
 def parseStep (kind : Nat) (w : String) : Option (List MStep) :=
   match w.toList with
@@ -252,7 +259,8 @@ def parseStep (kind : Nat) (w : String) : Option (List MStep) :=
     | some n =>
       if c = 't' then some [.evm (transfer 0 1 n) 0]
       else if c = 'a' then some [.evm (approve 0 3 n) 0]
-      else if c = 'b' then some [.nested (if kind = 0 then burn 0 n else transfer 0 2 n) n]
+      else if c = 'b' then some [.nested (if kind = 0 then burn 0 n else transfer 0 2 n) n 0]
+      else if c = 'c' then some [.nested (if kind = 0 then mint 0 n else transfer 2 0 n) 0 n]
       else if c = 'x' then some (if kind = 0 then [.evm (transferFrom 3 0 2 n) 0, .evm (burn 2 n) n] else [.evm (transferFrom 3 0 2 n) n])
       else none
   | [] => none
